@@ -834,7 +834,9 @@ fn main() {
         "exhaustive": exhaustive,
         "space": "configurations (the whole E4 catalogue + the extra shapes of this check, both tiers) × {2 lengths, every target of \
                   the public target structures, every (position, coefficient) of both packed vectors × perturbations, every non-input \
-                  field leaf × perturbations}; perturbations: quick {+1}, thorough {+1, 0, neighbour}",
+                  field leaf × perturbations}; perturbations: quick {+1}, thorough {+1, 0, neighbour}. The perturbation clause needs an accepted \
+                  baseline: configurations whose honest packed data the circuit rejects are listed under every_input_matters_skipped_for \
+                  and get the length and placement clauses only",
         "perturbations": kinds.iter().map(|k| k.tag()).collect::<Vec<_>>(),
         "configurations_planned": n_specs,
         "configurations_done": done,
